@@ -31,6 +31,7 @@ type verdict struct {
 	App        aApp
 	Findings   []finding
 	SwTerm     string // Gallina case for the Swagger definitions
+	InfoTerm   string // Gallina case for info / servers / host (Export/OasInfo.v)
 	Term       string // Gallina case ("" if none)
 	Skipped    string // why there is no Gallina case
 	ParseErr   string
@@ -130,6 +131,7 @@ func judgeApp(a aApp, opt options) (v verdict) {
 	sj, sy := runExport2(app, "json"), runExport2(app, "yaml")
 	if opt.coq {
 		v.SwTerm, _ = swCaseTerm(app, typesOnlyExport2(app))
+		v.InfoTerm = infoCaseTerm(app, oj, sj)
 	}
 	v.Out2 = string(sy.Bytes)
 	if sj.Err != "" || sj.Panic != "" || sy.Err != "" || sy.Panic != "" {
@@ -546,6 +548,24 @@ func main() {
 		jobs = append(jobs, job{g.appStmts(appNames[g.r.Intn(3)], style), options{arrai: i < nsArrai, coq: true}, "stmts", false})
 	}
 
+	// info stream (third pass): applications with and without a version, long names, contact / env / host attributes,
+	// extension attributes.  Its own generator state, so that the streams above and the command-line stream keep their inputs
+	ni := 60
+	if c.Thorough() {
+		ni = 500
+	}
+	if c.Search {
+		ni *= 3
+	}
+	gi := &gen{r: common.NewRng(c.Seed*7919 + 12)}
+	for i := 0; i < ni; i++ {
+		style := "sysl"
+		if i%3 == 2 {
+			style = "imported"
+		}
+		jobs = append(jobs, job{gi.appInfo(appNames[gi.r.Intn(4)], style), options{arrai: false, coq: true}, "info", false})
+	}
+
 	results := make([]verdict, len(jobs))
 	var wg sync.WaitGroup
 	sem := make(chan struct{}, 8)
@@ -613,6 +633,17 @@ func main() {
 				c.Hist("rpc-endpoint")
 			}
 		}
+		if jobs[i].src == "info" {
+			if a.Version == "" {
+				c.Hist("info:no-version")
+			}
+			if a.Long != "" {
+				c.Hist("info:long-name")
+			}
+			for _, at := range a.Attrs {
+				c.Hist("info-attr:" + at.K)
+			}
+		}
 		if v.ParseErr != "" && jobs[i].hostile {
 			c.Hist("hostile:does-not-compile")
 		}
@@ -663,6 +694,14 @@ func main() {
 		}
 	}
 	swCases.Close()
+	infoCases := c.NewCases("C12I", infoHeader, "c12i_case", infoFooter, 120)
+	for i, v := range results {
+		if v.InfoTerm != "" {
+			infoCases.Add(v.InfoTerm, replayT{Kind: "app", App: jobs[i].a})
+			c.Hist("coq-case-info")
+		}
+	}
+	infoCases.Close()
 	cliStream(c, g)
 	var keys []string
 	for k := range shrunk {
